@@ -13,7 +13,15 @@ independent oracle that evaluates the property on the implementation's own outpu
     oracle: freshness predicate evaluated on the logged build temperatures, recorded temperature
     vs. reference schedule, recorded xEqAlpha bracketed by independent thermodynamic evaluations
     at T -/+ maxTempChange;
- 3. paired constructor / setter runs compared array by array.
+ 3. paired constructor / setter runs compared array by array;
+ 4. non-isothermal DIFFUSION runs (SinglePhaseModel, HomogenizationModel; a duck-typed Arrhenius thermodynamics and the shipped
+    Ni-Cr / Ni-Cr-Al database): schedule as break points, as function of (z, t), through the constructor object; ramps of both
+    signs, fast, slow and inside one integer kelvin, changes of a few table bins, holds, gradients along z; table on / off /
+    other precisions / cleared between solve calls.  Every evaluation of the fluxes is logged (hash table, thermodynamics and
+    _getFluxes wrapped at run time) and replayed through `KawinV.TempSched.runDiff` (which node is served by which stored
+    value); oracle at every evaluation: temperature handed over = schedule(z, t), the value in use was computed within 10^-s K
+    of it (theorem schedule_followed_to_cache_resolution), fluxes / time step = the thermodynamics evaluated at
+    (x, schedule(z, t)) without the table; runs compared across the ways of giving the schedule and cached vs uncached.
 No file of /repo is touched: all instrumentation is instance-attribute wrapping at run time."""
 import bisect, contextlib, io, math, os, warnings
 import numpy as np
@@ -22,8 +30,8 @@ from vlib import Result, enc_list, f2b, Toks, close
 
 PROP = 'C13'
 META = {
-    'level_text': 'Lean 4 theorems, for any linearly ordered field, every schedule and every history of solver calls (by induction over the call list): every recorded slice has temperature = schedule(time) (setup slice and every step, Euler and RK4 glue, either lookup implementation); constructor == setter (same function, same isothermal flag) for number / break points / callable in the precipitation and the diffusion TemperatureParameters; for increasing (hours, kelvin) break points the schedule is the piecewise-linear interpolant in seconds (x3600), constant outside; a specification call (constructor or setter, both packages) leaves the break-point arrays of the caller unchanged, and re-using the very same arrays for further specifications / objects / models leaves every object with the schedule it was specified with (store-of-arrays model; reference- and value-semantics coincide when the caller does not write afterwards); lookup freshness: every growth-rate evaluation reads only table blocks, and hands out / records only equilibrium compositions, computed within maxTempChange of its own temperature, for heating and cooling, fast or arbitrarily slow, with re-mesh and extension anywhere. The pre-repair code is refuted in Lean (lookup_stale: 10 steps of +0.5 K at threshold 1 K; ctorAsWas_ne_setter). Models are tied to /repo on every run by op-sequence correspondence and by call-by-call trace refinement of real Al-Zr runs; the property predicate is also evaluated directly on logged build temperatures and against independent thermodynamic evaluations. On the composed KWN step (KawinV.KWNFull) eulerStep_fresh / rk4Step_fresh / runSteps_fresh prove for every backend, schedule and number of steps that the lookup table in use was computed within maxTempChange of the newest recorded temperature, across rebuild, re-mesh and extension; non-isothermal real runs are replayed step by step through that model with the captured table rebuilds.',
-    'level_note': 'Trusted: Lean kernel + Mathlib (propext, Classical.choice, Quot.sound); the hand models equal the Python code only as far as this run compared them. "In use" means: read by _singleGrowthBinary / written into a slice by _growthRateBinary; _calcMassBalance of the same slice runs BEFORE the refresh and can read a table one step staler than the threshold (counted as an observation, not proved, not a violation). Observation, not part of the statement and not checked: both classes keep references to the lists/arrays of the caller (late binding), so a caller who overwrites his array AFTER specifying changes the stored schedule (Lean: ref_alias_witness). np.interp is modelled by a left-to-right walk: exact for sorted break points and for <= 4 points in any order; unsorted longer lists, NaN times and user lists mutated after the call are outside the statement. The schedule is assumed to be a function of time. Exact-field arithmetic instead of IEEE doubles (all comparisons in the lookup rule are the same float expressions on both sides; interpolation compared to 1e-12). Multicomponent runs have no lookup table and are not part of the freshness clause.',
+    'level_text': 'Lean 4 theorems, for any linearly ordered field, every schedule and every history of solver calls (by induction over the call list): every recorded slice has temperature = schedule(time) (setup slice and every step, Euler and RK4 glue, either lookup implementation); constructor == setter (same function, same isothermal flag) for number / break points / callable in the precipitation and the diffusion TemperatureParameters; for increasing (hours, kelvin) break points the schedule is the piecewise-linear interpolant in seconds (x3600), constant outside; a specification call (constructor or setter, both packages) leaves the break-point arrays of the caller unchanged, and re-using the very same arrays for further specifications / objects / models leaves every object with the schedule it was specified with (store-of-arrays model; reference- and value-semantics coincide when the caller does not write afterwards); lookup freshness: every growth-rate evaluation reads only table blocks, and hands out / records only equilibrium compositions, computed within maxTempChange of its own temperature, for heating and cooling, fast or arbitrarily slow, with re-mesh and extension anywhere. The pre-repair code is refuted in Lean (lookup_stale: 10 steps of +0.5 K at threshold 1 K; ctorAsWas_ne_setter). Models are tied to /repo on every run by op-sequence correspondence and by call-by-call trace refinement of real Al-Zr runs; the property predicate is also evaluated directly on logged build temperatures and against independent thermodynamic evaluations. On the composed KWN step (KawinV.KWNFull) eulerStep_fresh / rk4Step_fresh / runSteps_fresh prove for every backend, schedule and number of steps that the lookup table in use was computed within maxTempChange of the newest recorded temperature, across rebuild, re-mesh and extension; non-isothermal real runs are replayed step by step through that model with the captured table rebuilds. Diffusion models (KawinV.TempSched.runDiff over KawinV.HashCache): for every schedule, every key function and every history of control calls and flux evaluations, an evaluation at time t looks every node up at the schedule evaluated at t (diffusion_hands_over_schedule, diffusion_temps_between for break points) and uses a value stored under the key of that (composition, temperature) (diffusion_value_in_use_has_equal_key); with the key of the code (temperature scaled like the composition) that value was computed less than 10^-s K from the schedule temperature, for ramps of any rate, and at exactly that temperature with the table off (schedule_followed_to_cache_resolution); a key that leaves the temperature unscaled is refuted (schedule_within_kelvin_collides for every precision, kelvin_key_run_is_stale on the ramp 1073.05 -> 1073.95 K). Real SinglePhaseModel / HomogenizationModel runs are replayed evaluation by evaluation through that model.',
+    'level_note': 'Trusted: Lean kernel + Mathlib (propext, Classical.choice, Quot.sound); the hand models equal the Python code only as far as this run compared them. "In use" means: read by _singleGrowthBinary / written into a slice by _growthRateBinary; _calcMassBalance of the same slice runs BEFORE the refresh and can read a table one step staler than the threshold (counted as an observation, not proved, not a violation). Observation, not part of the statement and not checked: both classes keep references to the lists/arrays of the caller (late binding), so a caller who overwrites his array AFTER specifying changes the stored schedule (Lean: ref_alias_witness). np.interp is modelled by a left-to-right walk: exact for sorted break points and for <= 4 points in any order; unsorted longer lists, NaN times and user lists mutated after the call are outside the statement. The schedule is assumed to be a function of time. Exact-field arithmetic instead of IEEE doubles (all comparisons in the lookup rule are the same float expressions on both sides; interpolation compared to 1e-12). Multicomponent runs have no lookup table and are not part of the freshness clause. Diffusion runs: the node compositions of every evaluation are inputs of the model (taken from the run), temperatures are assumed non-negative, the table resolution 10^-s is part of the statement (a value computed less than 10^-s K and 10^-s in composition away may be used: that is what setHashSensitivity documents); what the fluxes are as a function of the values (C04) and the composition part of the key (C09/C17) are not restated here; a schedule function returning fewer temperatures than nodes is modelled as SinglePhaseModel does it (raises after the covered nodes) and not generated.',
     'technique': 'Lean 4 proof over ordered fields (state machines, induction over call histories) + op-sequence correspondence + trace refinement of real runs',
     'design_ref': 'DESIGN.md section 6, C13',
 }
@@ -31,15 +39,19 @@ LEAN_MODULES = ['KawinV.Props.C13', 'KawinV.Props.KWNFull']
 MONITORED = [
     'mass balance of a slice reads the table before _growthRateBinary refreshes it (table lag of one step; histogram key massbalance-table-beyond-threshold)',
     'recorded xEqAlpha lies between independent evaluations at T-maxTempChange and T+maxTempChange (monotone solubility; sampled slices)',
+    'diffusion runs: fluxes and stability time step of every evaluation equal those from the thermodynamics evaluated at (x, schedule(z, t)) without the table, to solver tolerance when nothing was reused and to the Lipschitz bound of the table resolution otherwise (homogenization model with reused records: only the temperature-provenance oracle, differences of stored chemical potentials are not small)',
+    'diffusion runs: same final profile whichever way the schedule is given; cached run = uncached run within the resolution bound',
 ]
 ASSUMPTIONS = [
     'maxTempChange >= 0; the schedule is a (pure) function of time; break-point lists are not mutated after being handed over',
     'break points strictly increasing for the interpolation theorems; equal hours (a jump) are right-continuous; unsorted lists with more than 4 points and NaN times are outside the statement',
     'freshness is stated at every _growthRateBinary call and for every recorded slice; the mass balance of the same slice is evaluated before the refresh (observation)',
     'exact-field theorems vs IEEE doubles: interpolated values compared with rtol 1e-12 scaled by the largest break-point temperature',
+    'diffusion runs: temperatures non-negative (kelvin); the schedule returns one temperature per node; Python hash of a tuple of ints taken as injective (HashCache)',
 ]
 TRUSTED = ['np.interp semantics as modelled in KawinV.TempSched.npInterp (compared on every run)',
-           'run-time wrappers (_createLookupBinary, _growthRateBinary, getInterfacialComposition, …) report every call']
+           'run-time wrappers (_createLookupBinary, _growthRateBinary, getInterfacialComposition, …) report every call',
+           'diffusion runs: instance-level wrappers of HashTable.retrieveFromHashTable / addToHashTable / control calls, of the thermodynamics entry point (getInterdiffusivity / getEq) and of _getFluxes report every call; a value is identified by object identity']
 
 # which lookup implementation of Model/Lookup.lean the traces are replayed through: 1 = the code as it is;
 # 0 = the code as it was before the repair of D-C13-dtemp (only used by hand to confirm the model of the old code)
@@ -1117,6 +1129,646 @@ def check_pair(ctx, res, case):
             break
 
 
+# =====================================================================================
+# 3. diffusion runs under a schedule
+# =====================================================================================
+# SinglePhaseModel / HomogenizationModel evaluate `T = temperatureParameters(z, t)` at every evaluation of the fluxes and then go,
+# node by node, through the (composition, temperature) HashTable in front of the thermodynamics.  Lean: TempSched.runDiff over
+# HashCache.Table; theorems diffusion_hands_over_schedule, diffusion_value_in_use_has_equal_key,
+# schedule_followed_to_cache_resolution, schedule_within_kelvin_collides (Props/C13.lean, section 6).
+R_GAS = 8.314462618
+# which key of Model/TempSched.lean the traces are replayed through: 0 = the code (every component of x ++ [T] times 10^s, int64),
+# 1 = temperature left unscaled (only used by hand, to confirm the model of such a variant against a changed tree)
+KEY_VARIANT = os.environ.get('C13_KEY_VARIANT', '0')
+_DTHERM = {}
+
+
+class _Ns:
+    pass
+
+
+class ArrhTherm:
+    """duck-typed thermodynamics with Arrhenius kinetics (1.5 - 4 % per kelvin near 1000 K), smooth in composition: what
+    SinglePhaseModel reads (getInterdiffusivity, clearCache) and what `_computeSingleMobility` reads on a cache miss
+    (getEq(...).eq.MU / get_composition_sets(), mobCallables, mobility_correction, elements, phases, numElements)."""
+
+    def __init__(self, elements, seed):
+        import random
+        q = random.Random(seed)
+        self.user = list(elements)
+        self.elements = list(elements) + ['VA']
+        self.numElements = len(elements)
+        self.phases = ['ALPHA']
+        self.mobility_correction = None
+        E = self.numElements - 1
+        self.D0 = 10 ** q.uniform(-5, -3)
+        self.Q = q.uniform(1.5e5, 3.0e5)
+        self.a = [q.uniform(-0.8, 1.5) for _ in range(E)]
+        self.base = np.array([[1.0 if i == j else q.uniform(-0.2, 0.2) for j in range(E)] for i in range(E)]) * np.array([[q.uniform(0.5, 1.0)] for _ in range(E)])
+        self.alpha = sorted(elements)                       # pycalphad lists components alphabetically
+        self.pos = [self.alpha.index(e) for e in elements]
+        self.mu0 = [q.uniform(-8e4, -2e4) for _ in elements]
+        self.L = q.uniform(-1.5e4, 1.5e4)
+        self.mob = {el: (10 ** q.uniform(-9, -6), q.uniform(1.5e5, 3.0e5), q.uniform(-0.5, 0.5)) for el in self.alpha}
+        self.mobCallables = {'ALPHA': {el: self._mk(j, *self.mob[el]) for j, el in enumerate(self.alpha)}}
+
+    @staticmethod
+    def _mk(j, m0, Q, k):
+        return lambda dof: m0 * math.exp(-Q / (R_GAS * dof[0])) * (1 + k * dof[1 + j])
+
+    def clearCache(self):
+        pass
+
+    def factor(self, x, T):
+        return self.D0 * math.exp(-self.Q / (R_GAS * float(T))) * (1 + sum(a * float(v) for a, v in zip(self.a, np.atleast_1d(x))))
+
+    def getInterdiffusivity(self, x, T, removeCache=True, phase=None):
+        f = self.factor(x, T)
+        return np.array(f) if self.numElements == 2 else f * self.base
+
+    def lipschitz(self, x, T, dx, dT):
+        """bound of the relative change of getInterdiffusivity when every composition moves by dx and the temperature by dT"""
+        g = 1 + sum(a * float(v) for a, v in zip(self.a, np.atleast_1d(x)))
+        return sum(abs(a) for a in self.a) * dx / (g - sum(abs(a) for a in self.a) * dx) + math.expm1(self.Q / (R_GAS * float(T) * (float(T) - dT)) * dT)
+
+    def getEq(self, x, T, gExtra=0, precPhase=None):
+        x = [float(v) for v in np.atleast_1d(x)]
+        T = float(T)
+        user = [1.0 - sum(x)] + x
+        full = [0.0] * self.numElements
+        for i, v in enumerate(user):
+            full[self.pos[i]] = v
+        mu = [0.0] * self.numElements
+        for i, v in enumerate(user):
+            mu[self.pos[i]] = self.mu0[i] + R_GAS * T * math.log(max(v, 1e-300)) + self.L * (1 - v) ** 2
+        cs = _Ns()
+        cs.phase_record = _Ns()
+        cs.phase_record.phase_name = 'ALPHA'
+        cs.phase_record.nonvacant_elements = list(self.alpha)
+        cs.NP = 1.0
+        cs.X = list(full)
+        cs.dof = np.array([T] + full, dtype=np.float64)
+        wks = _Ns()
+        wks.eq = _Ns()
+        wks.eq.MU = np.array([[mu]])
+        wks.get_composition_sets = lambda: [cs]
+        return wks
+
+
+def drun_therm(case):
+    """the thermodynamics object of a diffusion-run case and the phase list of the model"""
+    vlib.use_repo()
+    k = case['therm']
+    if k == 'arrh':
+        return ArrhTherm(case['elements'], case['thseed']), ['ALPHA']
+    if k not in _DTHERM:
+        with quiet():
+            from kawin.tests.datasets import NICRAL_TDB
+            from kawin.thermo import GeneralThermodynamics
+            _DTHERM[k] = GeneralThermodynamics(NICRAL_TDB, list(case['elements']), ['FCC_A1', 'BCC_A2'])
+    return _DTHERM[k], (['FCC_A1'] if case['model'] == 'single' else ['FCC_A1', 'BCC_A2'])
+
+
+def drun_spec_args(spec):
+    if spec[0] == 'iso':
+        return ('s', spec[1])
+    if spec[0] == 'two':
+        return ('2', list(spec[1]), list(spec[2]), 'run')
+    return ('f', spec[1], spec[2], spec[3])
+
+
+def drun_ref_T(case, z, t):
+    """independent reference: the schedule of the case at time t (seconds) for every node; None on a tie"""
+    a = drun_spec_args(case['spec'])
+    if a[0] == 'f':
+        return [a[1] + a[2] * t + a[3] * float(zz) for zz in z]
+    v = ref_sched(a, t)
+    return None if v == 'tie' or v is None else [v] * len(z)
+
+
+def drun_build(case, via=None):
+    vlib.use_repo()
+    from kawin.diffusion import SinglePhaseModel, HomogenizationModel
+    from kawin.diffusion.DiffusionParameters import TemperatureParameters, CompositionProfile
+    via = via or case['via']
+    therm, phases = drun_therm(case)
+    prof = CompositionProfile()
+    for el, p in zip(case['elements'][1:], case['profile']):
+        if p[0] == 'linear':
+            prof.addLinearCompositionStep(el, p[1], p[2])
+        else:
+            prof.addStepCompositionStep(el, p[1], p[2], p[3])
+    a = drun_spec_args(case['spec'])
+    args = py_args(a, diffusion=True)
+
+    def user_fn(z, t):           # the user's own function of (z, t) for a schedule that is not of the callable kind
+        return np.array([ref_sched(a, t)] * len(z), dtype=float)
+
+    fn = args[0] if a[0] == 'f' else user_fn
+    kw = {}
+    if via == 'ctor':
+        kw['temperatureParameters'] = TemperatureParameters(*args)
+    elif via == 'ctor-function':
+        kw['temperatureParameters'] = TemperatureParameters(fn)
+    cls = SinglePhaseModel if case['model'] == 'single' else HomogenizationModel
+    m = cls(list(case['zlim']), case['N'], list(case['elements']), phases, thermodynamics=therm, compositionProfile=prof, **kw)
+    if via == 'array':
+        m.setTemperatureArray(*args)
+    elif via == 'function':
+        m.setTemperatureFunction(fn)
+    elif via == 'setT':
+        m.setTemperature(*args)
+    elif via not in ('ctor', 'ctor-function'):
+        raise ValueError(via)
+    return m, therm
+
+
+VIAS = {'iso': ['setT', 'ctor', 'function'], 'two': ['array', 'ctor', 'function', 'ctor-function'], 'fn': ['function', 'ctor']}
+
+
+def drun_sched_ops(case, via):
+    """the constructor/setter sequence of the diffusion TemperatureParameters as the model's op list"""
+    a = drun_spec_args(case['spec'])
+    if via in ('function', 'ctor-function') and a[0] != 'f':
+        return None                                   # a user-written function outside the callable family of the driver
+    if via in ('ctor', 'ctor-function'):
+        return [('C', a)]
+    return [('C', ('o', 0)), ({'s': 'I', '2': 'A', 'f': 'F'}[a[0]], a)]
+
+
+def drun_apply_ctl(m, ops):
+    for o in ops:
+        if o[0] == 'use':
+            m.useCache(o[1])
+        elif o[0] == 'clear':
+            m.clearCache()
+        elif o[0] == 'sens':
+            m.setHashSensitivity(o[1])
+        else:
+            raise ValueError(o)
+
+
+def drun_trace(case, via=None, cache_off=False):
+    """runs the real model with run-time wrappers (hash table, thermodynamics, _getFluxes); returns the log"""
+    with quiet():
+        m, therm = drun_build(case, via)
+    from kawin.solver import SolverType
+    single = case['model'] == 'single'
+    ht = m.hashTable
+    events = []
+    st = {'cur': None, 'steps': 0}
+    prov, keep, pending = {}, [], []
+    o_ret, o_add, o_en, o_cl, o_ss, o_flux = ht.retrieveFromHashTable, ht.addToHashTable, ht.enableCaching, ht.clearCache, ht.setHashSensitivity, m._getFluxes
+    tname = 'getInterdiffusivity' if single else 'getEq'
+    o_th = getattr(therm, tname)
+
+    def w_ret(x, T):
+        v = o_ret(x, T)
+        cur = st['cur']
+        if cur is not None:
+            cur['nodes'].append({'x': [float(q) for q in np.atleast_1d(x)], 'T': float(T), 'hit': v is not None,
+                                 'prov': prov.get(id(v)) if v is not None else None, 'thermo': None})
+        return v
+
+    def w_th(x, T, *a, **k):
+        pt = ([float(q) for q in np.atleast_1d(x)], float(T))
+        pending.append(pt)
+        cur = st['cur']
+        if cur is not None and cur['nodes']:
+            cur['nodes'][-1]['thermo'] = pt
+        return o_th(x, T, *a, **k)
+
+    def w_add(x, T, v):
+        keep.append(v)
+        src = pending.pop() if pending else ([float(q) for q in np.atleast_1d(x)], float(T))
+        del pending[:]
+        prov[id(v)] = src
+        cur = st['cur']
+        if cur is not None and cur['nodes'] and not cur['nodes'][-1]['hit']:
+            cur['nodes'][-1]['prov'] = src
+        return o_add(x, T, v)
+
+    def w_en(b):
+        events.append(('E', bool(b))); return o_en(b)
+
+    def w_cl():
+        events.append(('C',)); return o_cl()
+
+    def w_ss(s):
+        events.append(('S', int(s))); return o_ss(s)
+
+    def w_flux(t, x_curr):
+        st['cur'] = cur = {'t': float(t), 'x': np.array(x_curr[0], dtype=float).copy(), 'nodes': []}
+        try:
+            fl = o_flux(t, x_curr)
+        finally:
+            st['cur'] = None
+        cur['flux'] = np.array(fl, dtype=float).copy()
+        cur['dt'] = float(m._currdt) if single else None
+        cur['sens'] = int(round(math.log10(float(ht.hash_sensitivity))))
+        cur['cache'] = bool(ht._cache)
+        events.append(('F', cur))
+        return fl
+
+    ht.retrieveFromHashTable, ht.addToHashTable, ht.enableCaching, ht.clearCache, ht.setHashSensitivity, m._getFluxes = w_ret, w_add, w_en, w_cl, w_ss, w_flux
+    setattr(therm, tname, w_th)
+
+    class Obs:
+        def updateCoupledModel(s, mm):
+            st['steps'] += 1
+            if st['steps'] >= case['n'] + 3:
+                raise _Stop()
+
+    m.addCouplingModel(Obs())
+    err = None
+    pub = None
+    try:
+        with quiet():
+            if cache_off:
+                m.useCache(False)
+            stype = SolverType.RK4 if case['solver'] == 'rk4' else SolverType.EXPLICITEULER
+            for ops, frac in case['solves']:
+                if not cache_off:
+                    drun_apply_ctl(m, ops)
+                try:
+                    m.solve(case['sim'] * frac, solverType=stype)
+                except _Stop:
+                    break
+            pub = m.getFluxes()          # the public outputs at the final time
+    except Exception as e:
+        import traceback
+        tb = traceback.format_exc()
+        if not vlib.in_repo_traceback(tb):
+            raise
+        site = [l.strip() for l in tb.splitlines() if l.strip().startswith('File "%s' % vlib.REPO)]
+        err = (type(e).__name__, repr(e)[:200], site[-1] if site else None)
+    finally:
+        delattr(therm, tname)
+    return {'model': m, 'therm': therm, 'o_th': o_th, 'events': events, 'err': err, 'pub': pub, 'steps': st['steps']}
+
+
+def drun_ref_flux(case, out, ev, Tref):
+    """fluxes (and the stability time step of the single-phase model) from an evaluation of the thermodynamics at
+    (x_i, schedule(z_i, t)) that does not go through the model's table; returns (fluxes, dt or None)"""
+    m, therm = out['model'], out['therm']
+    x = ev['x']
+    N = m.N
+    if case['model'] == 'single':
+        with quiet():
+            d = np.array([np.array(out['o_th'](x[:, i], Tref[i], phase=m.phases[0]), dtype=float) for i in range(N)])
+        dmid = (d[1:] + d[:-1]) / 2
+        dxdz = (x[:, 1:] - x[:, :-1]) / m.dz
+        fl = np.zeros((x.shape[0], N + 1))
+        if x.shape[0] == 1:
+            fl[0, 1:-1] = -dmid * dxdz[0]
+        else:
+            for k in range(N - 1):
+                fl[:, k + 1] = -dmid[k] @ dxdz[:, k]
+        return fl, m.constraints.vonNeumannThreshold * m.dz ** 2 / np.amax(np.abs(dmid))
+    # homogenization model: the same class, table off, the temperature given as the reference array
+    ref = out.get('refmodel')
+    if ref is None:
+        with quiet():
+            ref, _ = drun_build(dict(case, spec=('iso', 1000.0)), 'setT')
+            ref.useCache(False)
+            ref.setup()
+        out['refmodel'] = ref
+    arr = np.array(Tref, dtype=float)
+    ref.temperatureParameters.setTemperatureFunction(lambda z, t: arr.copy())
+    with quiet():
+        fl = np.array(ref._getFluxes(ev['t'], [x.copy()]), dtype=float)
+    return fl, None
+
+
+def drun_tol(case, out, ev, Tref):
+    """relative tolerance of the fluxes against the reference: solver tolerance when every value was computed for this very
+    evaluation, else what the table's resolution 10^-s allows (Lipschitz bound of the duck-typed thermodynamics; 30 * 10^-s for
+    the shipped database at s >= 4); None = no meaningful bound"""
+    if not any(nd['hit'] for nd in ev['nodes']):
+        return 1e-9 if case['therm'] == 'arrh' else 1e-8 if case['model'] == 'single' else 1e-6
+    s = ev['sens']
+    if case['model'] != 'single':
+        return None                                   # differences of cached chemical potentials: resolution error is not small
+    if case['therm'] == 'arrh':
+        b = max(out['therm'].lipschitz(nd['x'], nd['T'], 10.0 ** -s, 10.0 ** -s) for nd in ev['nodes'])
+        return 2 * b + 1e-9 if b < 0.05 else None
+    return 30 * 10.0 ** -s + 1e-9 if s >= 4 else None
+
+
+def drun_line(case, via, events, z):
+    ops = drun_sched_ops(case, via)
+    if ops is None:
+        a = drun_spec_args(case['spec'])
+        ops = [('C', ('o', 0)), ({'s': 'I', '2': 'A'}[a[0]], a)]
+    evs = []
+    for e in events:
+        if e[0] == 'E':
+            evs.append('E ' + vlib.enc_bool(e[1]))
+        elif e[0] == 'C':
+            evs.append('C')
+        elif e[0] == 'S':
+            evs.append('S %d' % e[1])
+        else:
+            evs.append('F %s %d %s' % (f2b(e[1]['t']), len(e[1]['nodes']), ' '.join(enc_list(nd['x']) for nd in e[1]['nodes'])))
+    return 'df.run %s %d %s %s %d %s' % (KEY_VARIANT, len(ops), ' '.join(enc_op(o) for o in ops), enc_list([float(q) for q in z]), len(evs), ' '.join(evs))
+
+
+def drun_parse(line, nflux):
+    t = Toks(line)
+    if not t.ok:
+        return None
+    outs = []
+    for _ in range(nflux):
+        k = t.tok()
+        if k == 'E':
+            outs.append(None); continue
+        temps = t.flts()
+        n = t.nat()
+        outs.append((temps, [(t.flts(), t.flt()) for _ in range(n)]))
+    return outs
+
+
+def _near_bin_edge(v, s):
+    y = abs(v) * 10.0 ** s
+    return abs(y - round(y)) < 1e-6
+
+
+def ramp_class(case):
+    return case['kind'].split('-')[0]
+
+
+def check_drun(ctx, res, case, oracle_only=False, via=None, cache_off=False, out=None):
+    via = via or case['via']
+    out = out or drun_trace(case, via, cache_off)
+    m = out['model']
+    mdl = case['model']
+    desc = dict({k: case[k] for k in case}, via=via, cache_off=cache_off)
+    fl_events = [e[1] for e in out['events'] if e[0] == 'F']
+    res.case(('drun', mdl, case['therm'], case['kind'], via, cache_off, case['solver'], case['N'], round(case['sim'], 3), repr(case['solves'])),
+             case['spec'][0] != 'iso' and len(fl_events) > 3)
+    res.traces += 1
+    res.count('diffusion-run:' + mdl + ':' + case['therm']); res.count('diffusion-schedule:' + case['kind']); res.count('diffusion-via:' + via)
+    res.count('diffusion-cache:' + ('off' if cache_off else repr([o for ops, _ in case['solves'] for o in ops])))
+    res.count('diffusion flux evaluations', len(fl_events))
+    if out['err']:
+        res.violate('raises:diffusion-run-%s:%s' % (mdl, out['err'][0]), 'the run raised %s at %s' % (out['err'][1], out['err'][2]), desc)
+        return out
+    if any(not np.all(np.isfinite(e['x'])) for e in fl_events):
+        res.count('diffusion run left the finite numbers (unstable step of the model), not evaluated')
+        out['err'] = ('diverged', '', None)
+        return out
+    z = [float(q) for q in m.z]
+    a = drun_spec_args(case['spec'])
+    scaleT = max(abs(q) for q in (a[2] if a[0] == '2' else [a[1]]))
+    cls = ramp_class(case)
+    nchk = 0
+    bad = set()
+    for j, ev in enumerate(fl_events):
+        Tref = drun_ref_T(case, z, ev['t'])
+        if Tref is None:
+            res.near_tie_skipped += 1; continue
+        if len(ev['nodes']) != m.N:
+            res.violate('diffusion-nodes-not-all-evaluated-%s' % mdl, 'flux evaluation %d went through the table for %d of %d nodes' % (j, len(ev['nodes']), m.N), dict(desc, evaluation=j), len(ev['nodes']), m.N)
+            break
+        # ---- oracle 1: the temperature handed to the table / to the thermodynamics is the schedule at the time of the evaluation
+        for i, nd in enumerate(ev['nodes']):
+            if 'handed' not in bad and not close(nd['T'], Tref[i], 1e-12, scaleT):
+                bad.add('handed')
+                res.violate('diffusion-temperature-not-schedule-%s-%s' % (mdl, via), 'flux evaluation %d at t = %r: node %d is looked up at T = %r, the schedule gives %r' % (j, ev['t'], i, nd['T'], Tref[i]),
+                            dict(desc, evaluation=j, node=i, t=ev['t']), nd['T'], Tref[i])
+            if 'thermo' not in bad and nd['thermo'] is not None and not close(nd['thermo'][1], Tref[i], 1e-12, scaleT):
+                bad.add('thermo')
+                res.violate('diffusion-thermodynamics-temperature-not-schedule-%s-%s' % (mdl, via), 'flux evaluation %d at t = %r: the thermodynamics is called for node %d with T = %r, the schedule gives %r' % (j, ev['t'], i, nd['thermo'][1], Tref[i]),
+                            dict(desc, evaluation=j, node=i, t=ev['t']), nd['thermo'][1], Tref[i])
+            # ---- oracle 2: the value in use was computed at a temperature within the table's resolution of the schedule
+            p = nd['prov']
+            if p is None:
+                if 'noprov' not in bad:
+                    bad.add('noprov')
+                    res.violate('diffusion-value-of-unknown-origin-%s' % mdl, 'flux evaluation %d: the value used for node %d was neither computed now nor stored by an earlier evaluation' % (j, i), dict(desc, evaluation=j, node=i))
+                continue
+            lim = 0.0 if not ev['cache'] else 10.0 ** -ev['sens'] * (1 + 1e-6)
+            res.count('diffusion node values: ' + ('reused' if nd['hit'] else 'computed'))
+            if 'stale' not in bad and abs(p[1] - Tref[i]) > lim + 1e-12 * scaleT:
+                bad.add('stale')
+                res.violate('diffusion-value-from-other-temperature-%s-%s-%s' % (mdl, cls, 'cache-off' if not ev['cache'] else 'within-one-kelvin' if abs(p[1] - Tref[i]) < 1 else 'beyond-one-kelvin'),
+                            'flux evaluation %d at t = %r (schedule %r K at node %d): the %s in use was computed at %r K, %.3g K away (table resolution %g K)' % (
+                                j, ev['t'], Tref[i], i, 'interdiffusivity' if mdl == 'single' else 'mobility / chemical potential record', p[1], abs(p[1] - Tref[i]), lim),
+                            dict(desc, evaluation=j, node=i, t=ev['t']), [p[1], Tref[i]], '|T_computed - T_schedule(t)| < %g' % lim)
+        # ---- oracle 3: fluxes / time step against the evaluation at (x, schedule) that does not go through the table
+        every = case.get('check_every', 1)
+        if j % every == 0 or j == len(fl_events) - 1:
+            tol = drun_tol(case, out, ev, Tref)
+            out.setdefault('tols', []).append(tol)
+            if tol is None:
+                res.count('diffusion flux reference skipped (resolution bound not small)')
+            else:
+                fref, dtref = drun_ref_flux(case, out, ev, Tref)
+                nchk += 1
+                sc = float(np.amax(np.abs(fref)))
+                if 'flux' not in bad and (fref.shape != ev['flux'].shape or not all(close(float(p), float(q), tol, sc) for p, q in zip(ev['flux'].ravel(), fref.ravel()))):
+                    bad.add('flux')
+                    k = int(np.argmax(np.abs(ev['flux'] - fref))) if fref.shape == ev['flux'].shape else 0
+                    res.violate('diffusion-flux-not-at-schedule-temperature-%s-%s' % (mdl, cls),
+                                'flux evaluation %d at t = %r: the fluxes are not the ones of the thermodynamics evaluated at the schedule temperature (largest relative deviation %.3g, tolerance %.3g)' % (
+                                    j, ev['t'], float(np.amax(np.abs(ev['flux'] - fref))) / sc if sc and fref.shape == ev['flux'].shape else float('nan'), tol),
+                                dict(desc, evaluation=j, t=ev['t']), float(ev['flux'].ravel()[k]), float(fref.ravel()[k]))
+                if 'dt' not in bad and dtref is not None and not close(ev['dt'], dtref, tol, 0):
+                    bad.add('dt')
+                    res.violate('diffusion-timestep-not-at-schedule-temperature-%s-%s' % (mdl, cls),
+                                'flux evaluation %d at t = %r: the stability time step is not 0.4 dz^2 / max D at the schedule temperature' % (j, ev['t']),
+                                dict(desc, evaluation=j, t=ev['t']), ev['dt'], dtref)
+    res.count('diffusion flux evaluations compared to the reference', nchk)
+    # the public outputs at the final time (getFluxes): the last logged evaluation is that call
+    if out['pub'] is not None and fl_events and not np.array_equal(np.array(out['pub'][0]), fl_events[-1]['flux'], equal_nan=True):
+        res.disagree('getFluxes() returned something else than its _getFluxes call', desc, 'pub', 'logged')
+
+    # ---------------- trace refinement against TempSched.runDiff
+    if ctx.driver_ok and not oracle_only:
+        ans = drun_parse(vlib.run_driver(PROP, [drun_line(case, via, out['events'], z)])[0], len(fl_events))
+        exact = drun_sched_ops(case, via) is not None
+        if ans is None:
+            res.disagree('diffusion-run model error', desc, 'ok', 'err')
+        else:
+            for j, (ev, mo) in enumerate(zip(fl_events, ans)):
+                if mo is None:
+                    res.disagree('flux evaluation %d: the model says the schedule raises' % j, dict(desc, evaluation=j), 'ok', 'E'); break
+                temps, vals = mo
+                if len(temps) != len(ev['nodes']) or not all(close(nd['T'], tt, 1e-12 if exact else 1e-9, scaleT) for nd, tt in zip(ev['nodes'], temps)):
+                    res.disagree('flux evaluation %d: temperatures handed over' % j, dict(desc, evaluation=j), [nd['T'] for nd in ev['nodes']], temps); break
+                stop = False
+                for i, (nd, (px, pT)) in enumerate(zip(ev['nodes'], vals)):
+                    p = nd['prov']
+                    if p is None:
+                        continue
+                    if list(p[0]) != list(px) or not close(p[1], pT, 1e-12 if exact else 1e-9, scaleT):
+                        if any(nd['T'] != tt for nd, tt in zip(ev['nodes'], temps)) and any(_near_bin_edge(q, ev['sens']) for q in [nd['T'], p[1], pT]):
+                            res.near_tie_skipped += 1
+                        else:
+                            res.disagree('flux evaluation %d node %d: (composition, temperature) the value in use was computed at' % (j, i), dict(desc, evaluation=j, node=i), [p[0], p[1]], [px, pT])
+                        stop = True; break
+                if stop:
+                    break
+    return out
+
+
+def check_drun_group(ctx, res, case, oracle_only=False):
+    """one schedule through every way of giving it, cache as the case says and off: every run checked on its own, then
+    compared with each other (same profile whichever way the schedule was given; cached run = uncached run)"""
+    vias = case.get('vias') or [case['via']]
+    outs = {}
+    for v in vias:
+        ok, o = vlib.guarded(res, 'diffusion-run-' + case['model'], dict(case, via=v), check_drun, ctx, res, case, oracle_only, v, False)
+        if ok and not o['err']:
+            outs[v] = o
+    unc = None
+    if case.get('pair_uncached'):
+        ok, o = vlib.guarded(res, 'diffusion-run-' + case['model'], dict(case, cache_off=True), check_drun, ctx, res, case, oracle_only, vias[0], True)
+        if ok and not o['err']:
+            unc = o
+    if not outs:
+        return
+    desc = {k: case[k] for k in case}
+    first = outs[vias[0]] if vias[0] in outs else list(outs.values())[0]
+    m0 = first['model']
+    x0 = np.array(first['events'] and [e[1] for e in first['events'] if e[0] == 'F'][0]['x'])
+    span = float(np.amax(np.abs(m0.x - x0))) if x0.shape == m0.x.shape else 0.0
+    for v, o in outs.items():
+        if o is first:
+            continue
+        mm = o['model']
+        res.count('diffusion runs compared across ways of giving the schedule')
+        exact = drun_sched_ops(case, v) is not None and drun_sched_ops(case, vias[0]) is not None
+        if not close(mm.t, m0.t, 1e-9, 0) or mm.x.shape != m0.x.shape or not all(close(float(p), float(q), 1e-12 if exact else 1e-7, 1e-3 * span) for p, q in zip(mm.x.ravel(), m0.x.ravel())):
+            res.violate('diffusion-run-differs-%s-vs-%s-%s' % (v, vias[0], case['model']), 'the same schedule given as %s and as %s: different composition profiles at the end of the run' % (v, vias[0]),
+                        dict(desc, via=[v, vias[0]]), [float(mm.t), float(np.amax(np.abs(mm.x - m0.x))) if mm.x.shape == m0.x.shape else None], [float(m0.t), 0.0])
+    if unc is not None:
+        mu = unc['model']
+        res.count('diffusion runs compared cached vs uncached')
+        # every value of the cached run was computed within 10^-s of the point it is used at: the deviation of the fluxes is bounded
+        # by what that resolution allows (the bounds of oracle 3), the deviation of the profiles by a multiple of it
+        tols = first.get('tols') or [None]
+        tol = 1.0 if any(q is None for q in tols) else 20 * max(tols)
+        if close(mu.t, m0.t, 1e-9, 0) and tol < 0.02:
+            if mu.x.shape != m0.x.shape or float(np.amax(np.abs(mu.x - m0.x))) > tol * span + 1e-13:
+                res.violate('diffusion-run-cached-differs-from-uncached-%s-%s' % (case['model'], ramp_class(case)),
+                            'the run with the table and the run without it end with different composition profiles (largest deviation %.3g of a total change of %.3g, allowed %.3g)' % (
+                                float(np.amax(np.abs(mu.x - m0.x))), span, tol * span),
+                            dict(desc, via=vias[0]), float(np.amax(np.abs(mu.x - m0.x))), tol * span)
+        else:
+            res.count('cached vs uncached: not comparable (different end time or coarse table)')
+
+
+DRUN_KINDS = ['subkelvin-heat', 'subkelvin-cool', 'slow-heat', 'slow-cool', 'fast-heat', 'fast-cool', 'hold-ramp-hold', 'micro', 'gradient', 'iso']
+
+
+def drun_probe_dt(case):
+    """the model's own first time step at the starting temperature (table off): sets the time scale of the schedule"""
+    with quiet():
+        m, _ = drun_build(dict(case, spec=('iso', case['T0'])), 'setT')
+        m.useCache(False)
+        m.setup()
+        _, dt = m.getFluxes()
+    return float(dt)
+
+
+def gen_drun_case(rng, model, therm, kind, N=None, n=None, solver=None):
+    els = {'nicr': ['NI', 'CR'], 'nicral': ['NI', 'CR', 'AL'], 'arrh': rng.choice([['NI', 'CR'], ['NI', 'CR'], ['NI', 'CR', 'AL']])}[therm]
+    L = rng.uniform(0.5e-3, 2e-3)
+    N = N or rng.randint(6, 14)
+    prof = []
+    for k, el in enumerate(els[1:]):
+        lo, hi = ((0.05, 0.35) if k == 0 else (0.02, 0.12))
+        a_, b_ = rng.uniform(lo, hi), rng.uniform(lo, hi)
+        while abs(a_ - b_) < 0.25 * (hi - lo):            # a flat profile has no time scale
+            a_, b_ = rng.uniform(lo, hi), rng.uniform(lo, hi)
+        prof.append(('linear', a_, b_) if rng.random() < 0.6 else ('step', a_, b_, rng.uniform(-0.5, 0.5) * L))
+    real = therm != 'arrh'
+    T0 = rng.uniform(1100, 1400) if real else rng.uniform(800, 1500)
+    n = n or rng.randint(5, 11)
+    case = {'family': 'drun', 'model': model, 'therm': therm, 'thseed': rng.randrange(10 ** 6), 'elements': els, 'zlim': [-L, L], 'N': N, 'profile': prof,
+            'kind': kind, 'T0': T0, 'n': n, 'solver': solver or rng.choice(['rk4', 'euler']), 'via': None}
+    sens = rng.choice([4, 4, 4, 4, 8, 6, 5, 3, 2])
+    ctl0 = rng.choice([[], [], [], [('sens', sens)], [('sens', sens)], [('use', False)], [('use', False), ('use', True)], [('clear',)]])
+    dt0 = drun_probe_dt(case)
+    sim = n * dt0
+    sg = -1 if kind.endswith('cool') else 1 if kind.endswith('heat') else rng.choice([1, -1])
+    grad = 0.0
+    if kind.startswith('subkelvin'):
+        # the whole run inside one integer kelvin
+        u = sorted([rng.uniform(0.02, 0.5), rng.uniform(0.5, 0.98)])
+        Ta, Tb = (math.floor(T0) + u[0], math.floor(T0) + u[1]) if sg > 0 else (math.floor(T0) + u[1], math.floor(T0) + u[0])
+    elif kind.startswith('slow'):
+        Ta = T0; Tb = T0 + sg * rng.uniform(1.2, 4.0)
+    elif kind.startswith('fast'):
+        Ta = T0; Tb = T0 + sg * rng.uniform(30, 120)
+    elif kind == 'micro':
+        s_eff = sens if ctl0 == [('sens', sens)] else 4
+        Ta = T0; Tb = T0 + sg * rng.uniform(0.5, 4.0) * 10.0 ** -s_eff
+    elif kind == 'gradient':
+        Ta = T0; Tb = T0 + sg * rng.choice([rng.uniform(0.05, 0.9), rng.uniform(2, 40)])
+        grad = rng.choice([1, -1]) * rng.choice([rng.uniform(0.05, 0.8), rng.uniform(2, 60)]) / (2 * L)
+    else:
+        Ta = Tb = T0
+    if kind == 'iso':
+        spec = ('iso', T0)
+    elif kind == 'hold-ramp-hold':
+        f1, f2 = sorted([rng.uniform(0.15, 0.45), rng.uniform(0.55, 0.85)])
+        dT = sg * rng.choice([rng.uniform(0.05, 0.9), rng.uniform(2, 40)])
+        spec = ('two', [0.0, f1 * sim / 3600, f2 * sim / 3600, sim / 3600], [T0, T0, T0 + dT, T0 + dT])
+    elif kind == 'gradient' or rng.random() < 0.4:
+        spec = ('fn', Ta, (Tb - Ta) / sim, grad)
+    else:
+        end = rng.choice([1.0, 1.0, 0.6, 1.7])             # the ramp ends with, before or after the run
+        spec = ('two', [0.0, end * sim / 3600], [Ta, Tb])
+    case['spec'] = spec
+    case['sim'] = sim
+    vias = list(VIAS[spec[0]])
+    rng.shuffle(vias)
+    case['via'] = vias[0]
+    case['vias'] = vias
+    split = rng.random() < 0.35
+    ctl1 = rng.choice([[('clear',)], [('use', False)], [('sens', rng.choice([3, 5, 8]))], []])
+    case['solves'] = [(ctl0, 0.5), (ctl1, 0.5)] if split else [(ctl0, 1.0)]
+    case['pair_uncached'] = True
+    return case
+
+
+def corr_drun(ctx, res, oracle_only=False, scale=1.0):
+    rng = ctx.rng
+    cases = []
+    # cheap duck-typed thermodynamics: every kind of schedule for both models, every way of giving it
+    reps = max(1, int(ctx.n(1, 12) * scale))
+    def gen(*a, **k):
+        # the generator asks the real model for its first time step: a crash there is a finding, not a harness error
+        ok, c = vlib.guarded(res, 'diffusion-run-setup', {'family': 'drun-gen', 'args': list(a), 'kw': k}, gen_drun_case, rng, *a, **k)
+        if ok:
+            cases.append(c)
+        return c if ok else None
+
+    for r in range(reps):
+        for kind in DRUN_KINDS:
+            gen('single', 'arrh', kind)
+            if r % 2 == 0 or ctx.thorough:
+                gen('homog', 'arrh', kind, N=rng.randint(5, 9), n=rng.randint(4, 7))
+    # shipped database (pycalphad): one short run in the quick tier, grids in the thorough tier
+    if not ctx.thorough:
+        k = rng.choice(['subkelvin-heat', 'subkelvin-cool'])
+        c = gen('single', 'nicr', k, N=7, n=5, solver='euler')
+        if c:
+            c['vias'] = [c['via']]; c['pair_uncached'] = False
+    else:
+        for kind in DRUN_KINDS:
+            for model, therm in (('single', 'nicr'), ('single', 'nicral'), ('homog', 'nicr'), ('homog', 'nicral')):
+                c = gen(model, therm, kind, N=rng.randint(6, 10), n=rng.randint(4, 8))
+                if c:
+                    c['vias'] = c['vias'][:2]
+    for c in cases:
+        check_drun_group(ctx, res, c, oracle_only)
+    if cases:
+        res.sample({'diffusion run': {k: cases[0][k] for k in ('model', 'therm', 'kind', 'spec', 'solves', 'N', 'n')}})
+
+
 KINDS = ['slow-heat', 'slow-cool', 'fast-heat', 'fast-cool', 'hold-ramp-hold', 'jump', 'zigzag', 'wiggle', 'iso']
 
 
@@ -1124,7 +1776,8 @@ def corr(ctx, oracle_only=False, scale=1.0):
     res = Result()
     res.rule = ('(a) random constructor/setter sequences for both TemperatureParameters classes (number, break points incl. single/duplicate/unsorted<=4/malformed, callable, 0 or 3 arguments) evaluated at 4-9 times incl. exactly on and outside break points; '
                 '(b) real binary Al-Zr PrecipitateModel runs: schedule kind x solver x step mode x threshold x PBM size x constructor|setter x 1-2 solve calls, traced call by call; '
-                'non-trivial = non-isothermal schedule (a) / non-isothermal run with > 5 recorded steps (b); distinct = (family, op kinds | run parameters)')
+                '(c) real SinglePhaseModel / HomogenizationModel runs: schedule kind (inside one kelvin, slow, fast, hold-ramp-hold, a few table bins, gradient along z, constant) x way of giving it (setter array / function / constructor object / constructor function) x table (default, other precision, off, cleared, switched between solve calls) x RK4|Euler x binary|ternary, duck-typed Arrhenius thermodynamics and NICRAL_TDB, every flux evaluation logged; '
+                'non-trivial = non-isothermal schedule (a) / non-isothermal run with > 5 recorded steps (b) / non-isothermal run with > 3 flux evaluations (c); distinct = (family, op kinds | run parameters)')
     res.monitored = list(MONITORED)
     corr_sched(ctx, res, int(ctx.n(240, 12000) * scale), oracle_only)
     corr_world(ctx, res, int(ctx.n(200, 8000) * scale), oracle_only)
@@ -1164,6 +1817,8 @@ def corr(ctx, oracle_only=False, scale=1.0):
             c['container'] = 'f64'        # one pair of float64 ndarrays shared by the constructor model and the setter model
         vlib.guarded(res, 'paired-run-' + k, {x: c[x] for x in c if x != 'via'}, check_pair, ctx, res, c)
     res.sample({'run': {k: cases[0][k] for k in ('kind', 'spec', 'solver', 'mode', 'maxTC', 'n')}})
+    # ---- diffusion runs under a schedule
+    corr_drun(ctx, res, oracle_only, scale)
     # the COMPOSED step (KWNFull.eulerStep, theorems eulerStep_fresh / runSteps_fresh): non-isothermal real runs replayed step by step
     # with the captured table rebuilds; lookup temperature, tables and the recorded temperature must be the implementation's
     if not oracle_only:
@@ -1188,7 +1843,7 @@ def replay(ctx, entry):
     for v in res.violations:
         print('  ', v['key'], v['what'], v['observed'], v['required'])
     vlib.finish_guard(res)
-    return (not res.violations) if fam in ('sched-prec', 'sched-diff', 'sched-world', 'run') else None
+    return (not res.violations) if fam in ('sched-prec', 'sched-diff', 'sched-world', 'run', 'drun') else None
 
 
 def _replay_case(ctx, res, c, fam):
@@ -1201,6 +1856,17 @@ def _replay_case(ctx, res, c, fam):
         case = {'family': fam, 'diffusion': c['diffusion'], 'store': [(a[0], a[1]) for a in c['store']], 'ops': [tuple(o) for o in c['ops']],
                 'times': c['times'], 'z': c.get('z')}
         corr_world(ctx, res, 1, oracle_only=True, cases=[case])
+    elif fam == 'drun':
+        case = {k: v for k, v in c.items() if k not in ('evaluation', 'node', 't', 'cache_off')}
+        case['spec'] = tuple(case['spec'])
+        case['profile'] = [tuple(p_) for p_ in case['profile']]
+        case['solves'] = [([tuple(o) for o in ops], fr) for ops, fr in case['solves']]
+        vias = c['via'] if isinstance(c.get('via'), list) else [c.get('via') or case['vias'][0]]
+        case['vias'] = vias; case['via'] = vias[0]
+        if c.get('cache_off'):
+            check_drun(ctx, res, case, True, vias[0], True)
+        else:
+            check_drun_group(ctx, res, case, oracle_only=True)
     elif fam == 'run':
         case = {k: v for k, v in c.items() if k not in ('call', 'index', 'time', 'attribute', 'step')}
         case['spec'] = tuple(case['spec'])
